@@ -1,4 +1,5 @@
 import JunoModel.C12.ProofsAbstract
+import JunoModel.C12.ProofsTally
 /-! C12 — non-vacuity of the abstract system: a well-formed environment and a run with a decision. -/
 namespace Juno.C12.Abs
 open Juno.C12
@@ -7,7 +8,7 @@ open Juno.C12
 
 /-- four validators of power 1, validator 3 Byzantine, validator 0 proposes, everything valid -/
 def E4 : AEnv :=
-  { vals := [0, 1, 2, 3], power := fun _ _ => 1, byz := fun a => a = 3,
+  { vals := [0, 1, 2, 3], power := fun _ a => if a < 4 then 1 else 0, byz := fun a => a = 3,
     proposer := fun _ _ => 0, valid := fun _ => true }
 
 theorem wsumL_cons_ge (a : Addr) (t : List Addr) (pw : Addr → Nat) (P : Addr → Prop) :
@@ -18,6 +19,7 @@ theorem E4_N (h : Height) : E4.N h = 4 := by
   simp only [AEnv.N, AEnv.wsum, E4]
   rw [wsumL_cons_pos _ _ _ _ trivial, wsumL_cons_pos _ _ _ _ trivial, wsumL_cons_pos _ _ _ _ trivial,
     wsumL_cons_pos _ _ _ _ trivial, wsumL_nil]
+  decide
 
 theorem E4_wf : E4.WF := by
   constructor
@@ -34,10 +36,15 @@ theorem E4_quorum (h : Height) (P : Addr → Prop) (h0 : P 0) (h1 : P 1) (h3 : P
     qN (E4.N h) ≤ E4.wsum h P := by
   rw [E4_N]
   simp only [AEnv.wsum, E4]
-  have := wsumL_cons_ge 2 [3] (fun _ => 1) P
+  have := wsumL_cons_ge 2 [3] (fun a => if a < 4 then 1 else 0) P
   rw [wsumL_cons_pos _ _ _ _ h0, wsumL_cons_pos _ _ _ _ h1]
   rw [wsumL_cons_pos _ _ _ _ h3, wsumL_nil] at this
   have hq : qN 4 = 3 := by decide
+  have e0 : (if (0:Nat) < 4 then 1 else 0) = 1 := by decide
+  have e1 : (if (1:Nat) < 4 then 1 else 0) = 1 := by decide
+  have e3 : (if (3:Nat) < 4 then 1 else 0) = 1 := by decide
+  rw [e3] at this
+  rw [e0, e1]
   omega
 
 end Juno.C12.Abs
@@ -67,3 +74,21 @@ theorem E4_run_decides : ∃ s, Reach E4 (fun _ => 0) s ∧ s.hist.decision 0 0 
   exact ⟨_, r8, Or.inr ⟨rfl, rfl, rfl⟩⟩
 
 end Juno.C12.Abs
+
+namespace Juno.C12
+open Juno.C12.Abs
+
+/-- an executable environment matching `E4` -/
+def env4 : Env :=
+  { totalPower := fun _ => 4, power := fun _ a => if a < 4 then 1 else 0, proposer := fun _ _ => 0,
+    valid := fun _ => true, appValue := fun k => 8 + 4 * k }
+
+theorem env4_ok : EnvOK E4 env4 := by
+  refine ⟨rfl, rfl, fun _ _ => rfl, fun h => by rw [E4_N]; rfl, fun h => by rw [E4_N]; decide, by decide, ?_⟩
+  intro h a ha
+  simp only [E4, List.mem_cons, List.not_mem_nil, or_false, not_or] at ha
+  show (if a < 4 then 1 else 0) = 0
+  have : ¬ a < 4 := by omega
+  simp [this]
+
+end Juno.C12
